@@ -29,6 +29,8 @@ def mark_case(rng):
     call = rng.choice([("negra_mark_heads", {}), ("negra_mark_heads", {}),
                        ("mark_heads_by_rules", {"mark_heads_preset": "negra"}),
                        ("mark_heads_by_rules", {"mark_heads_preset": "ptb"})])
+    if rng.random() < 0.04:
+        call = ("mark_heads_by_rules", {"mark_heads_rulefile": ""})          # an empty rule-file name: the empty rule table
     return one(t, call, "tree:" + call[0])
 
 
